@@ -27,14 +27,15 @@ LEVEL = 'exploration'
 # ----------------------------------------------------------------------------------------------
 # Domains
 # ----------------------------------------------------------------------------------------------
-D9 = [1, 1.0, True, 0, 'a', None, ['L', 1], ['L', 'a'], ['O', {'a': 1}]]
+NESTED = ['L', ['L', 1]]     # g = tuple($b) is then ([1],): a tuple that cannot be hashed
+D9 = [1, 1.0, True, 0, 'a', None, ['L', 1], ['L', 'a'], ['O', {'a': 1}], NESTED]
 D6 = [1, 1.0, 'a', None, ['L', 1], ['O', {'a': 1}]]
 D4 = [1, 'a', ['L', 1], None]
-D3 = [1, 'a', ['L', 1]]
+D3 = [1, 'a', ['L', 1], NESTED]
 D2 = [1, ['L', 1]]
 
 # requested values (Python objects, as Engine.fetch_table receives them)
-Q = [1, 1.0, True, 0, 'a', '', None, [1], ['a'], {'a': 1}, (1,), ('a',), []]
+Q = [1, 1.0, True, 0, 'a', '', None, [1], ['a'], {'a': 1}, (1,), ('a',), [], ([1],)]
 P12 = [[], [1], ['a'], [[1]], [1, 'a'], [1, [1]], [None], [{'a': 1}], [True, None], [0, ('a',)],
        [[1], ['a']], [1.0, 'a', [1], (1,)]]
 P5 = [[], [1, 'a'], [[1], None], [1.0, {'a': 1}], ['a', ('a',), 0]]
@@ -406,7 +407,7 @@ def jobs(tier):
 def run(tier, report):
   E = Enum(report, rule=(
       'layouts x contents: %s (contents = every assignment of the domain to columns a and b of every row; '
-      'D9 = 1, 1.0, True, 0, "a", None, [1], ["a"], {"a":1}; D6/D4/D3/D2 = subsets) x %d queries per table '
+      'D9 = 1, 1.0, True, 0, "a", None, [1], ["a"], {"a":1}, [[1]]; D6/D4/D3/D2 = subsets) x %d queries per table '
       '(every list of <= 2 of 13 requested values incl. lists, tuples, dicts on each of a, b, f, g; id and t '
       'lists; 12x12 list pairs on 4 column pairs; three-column queries) with a rotating formulas/private '
       'combination (all four for the unqueried fetch) + the metadata tables _grist_Tables, '
